@@ -71,7 +71,7 @@ def extract_relation(ctx, fns):
     an = FDAI(F, observer=obs)
     an_box.append(an)
     for fn in fns:
-        b = ctx.body(FN + fn)
+        b = ctx.method(SOCK, fn)
         for S in states:
             an.run(b, {state_key(): frozenset([S])})
     return rel
@@ -138,7 +138,7 @@ def r17_2(ctx):
             ctx.bad(f"{w['fn']}|state", f"Socket.state written ({w['kind']}) outside set_state/reset in {w['fn']}",
                     body=ctx.F.body(w['fn']), line=w['line'])
     # set_state: the stored value is its argument
-    b = ctx.body(FN + 'set_state')
+    b = ctx.method(SOCK, 'set_state')
     for w in ws:
         if w['fn'] == FN + 'set_state' and w['kind'] == 'store':
             s = b.blocks[w['bb']]['s'][w['si']]
@@ -186,7 +186,7 @@ def r17_3(ctx):
     FinWait2 / TimeWait(from Closing or FinWait1 with the ack-of-fin branch) / Closed(from LastAck)
     pass the true edge of a bool whose only `true` store is behind `tx_buffer.len()+1 == ack_len`."""
     F = ctx.F
-    b = ctx.body(FN + 'process')
+    b = ctx.method(SOCK, 'process')
     est = set_state_sites(b, 'Established')
     ctx.need(len(est) >= 2, "two set_state(Established) sites in tcp::process")
     eq_edges = rel_edges(F, b, 'eq', ACK_LEAFS, ISS_LEAFS)
@@ -254,7 +254,7 @@ def r17_4(ctx):
     (SYN-SENT) the ack==ISS+1 edge or (synchronised states) the true edge of the segment-in-window
     flag, whose `true` stores are all behind comparisons of RCV.NXT with the segment's sequence."""
     F = ctx.F
-    b = ctx.body(FN + 'process')
+    b = ctx.method(SOCK, 'process')
     ss = [bi for bi, *_ in call_sites(b, FN + 'set_state')]
     eq_edges = rel_edges(F, b, 'eq', ACK_LEAFS, ISS_LEAFS)
     WS = [f"F:{SOCK}.remote_seq_no"]
@@ -300,7 +300,7 @@ def r17_5(ctx):
         ctx.bad('CLOSE_DELAY', f"CLOSE_DELAY is {cd} (expected 10 s = 10000000 us)")
     # Timer::Close constructed only in set_for_close, with expires_at = arg + CLOSE_DELAY
     T = 'socket::tcp::Timer'
-    sfc = ctx.body('socket::tcp::Timer::set_for_close')
+    sfc = ctx.method('socket::tcp::Timer', 'set_for_close')
     n = 0
     for k, b in F.bodies.items():
         for bi, bl in enumerate(b.blocks):
@@ -330,7 +330,7 @@ def r17_5(ctx):
         else:
             ctx.bad(f"{c}|set_for_close", f"set_for_close called from {c} (only tcp::process may arm the TIME-WAIT timer)",
                     body=F.body(c))
-    p = ctx.body(FN + 'process')
+    p = ctx.method(SOCK, 'process')
     for S in F.variants(STATE):
         r = partition_run(ctx, p, S)
         for bi, c, args, dest, tgt, ln in call_sites(p, 'socket::tcp::Timer::set_for_close'):
@@ -344,11 +344,11 @@ def r17_5(ctx):
                 ctx.bad(f"process|set_for_close|{S}", f"TIME-WAIT timer armed while state may be {sorted(v) if v else 'unknown'} (from {S})",
                         body=p, bb=bi)
     # should_close: true only for Timer::Close behind timestamp >= expires_at ; dispatch: reset behind should_close
-    sc = ctx.body('socket::tcp::Timer::should_close')
+    sc = ctx.method('socket::tcp::Timer', 'should_close')
     ge = rel_edges(F, sc, 'gt', ['A:2'], [f"F:{T}.expires_at"], either_order=True)
     ctx.need(ge, "comparison timestamp >= expires_at in Timer::should_close")
     ctx.ok(('should_close', 'cmp'))
-    d = ctx.body(FN + 'dispatch')
+    d = ctx.method(SOCK, 'dispatch')
     sce = bool_call_edges(F, d, lambda n: n == 'socket::tcp::Timer::should_close', True)
     ctx.need(sce, "dispatch tests Timer::should_close")
     ctx.ok(('dispatch', 'should_close'))
@@ -358,7 +358,7 @@ def r17_5(ctx):
 def r17_5b(ctx):
     """T2 pairing: after each set_state(TimeWait) in tcp::process every path to a return passes
     Timer::set_for_close."""
-    p = ctx.body(FN + 'process')
+    p = ctx.method(SOCK, 'process')
     sites = set_state_sites(p, 'TimeWait')
     ctx.need(len(sites) >= 3, "three TIME-WAIT entry sites in tcp::process")
     for s in sites:
@@ -399,7 +399,7 @@ RESET_TABLE = {
 def r17_6(ctx):
     """T3 must-write: tcp::Socket::reset stores every field of the reviewed table on all paths.
     (`listen_endpoint` left stale lets a RST turn an actively opened SYN-RECEIVED socket into LISTEN.)"""
-    b = ctx.body(FN + 'reset')
+    b = ctx.method(SOCK, 'reset')
     mw = must_write_fields(ctx.F, b, SOCK)
     for f, want in RESET_TABLE.items():
         if f not in mw:
